@@ -1,6 +1,7 @@
 import PyomaVerif.Codec
 import PyomaVerif.Model.Cpx
 import PyomaVerif.Model.Merge
+import PyomaVerif.Model.MergeDriver
 open Lean PV PV.Codec PV.Merge
 namespace PV.Ops.C02
 
@@ -18,24 +19,13 @@ def msfOp (j : Json) : Except String Json := do
   if x.length ≠ y.length then throw "shape"
   pure (cpxToJson (msf Cpx.realPart x y))
 
-/-- `{"phis": [setup][row][mode] complex, "refs": [[..]..]}` → merged `[row][mode]`;
-    errors where numpy raises (index out of range, fewer reference lists than setups). -/
+/-- `{"phis": [setup][row][mode] complex, "refs": [[..]..]}` → merged `[row][mode]`
+    (`Merge.mergeModeShapesQ`); the error is the name of the exception numpy raises. -/
 def mergeOp (j : Json) : Except String Json := do
   let phis ← listOf (listOf (listOf cpxOfJson)) (← field j "phis")
   let refs ← listOf (listOf natOfJson) (← field j "refs")
-  if refs.length < phis.length then throw "IndexError"
-  let nmodes := ((phis.headD []).headD []).length
-  for (p, r) in phis.zip refs do
-    for i in r do
-      if i ≥ p.length then throw "IndexError"
-    for row in p do
-      if row.length ≠ nmodes then throw "ValueError"
-  let cols := (List.range nmodes).map fun k =>
-    mergedCol Cpx.realPart (phis.map (fun p => p.map (fun row => row.getD k default))) (refs.take phis.length)
-  -- transpose back to [row][mode]
-  let nrows := (cols.headD []).length
-  pure (Json.arr ((List.range nrows).map fun r =>
-    Json.arr ((cols.map fun c => cpxToJson (c.getD r default)).toArray)).toArray)
+  let m ← mergeModeShapesQ phis refs
+  pure (listToJson (listToJson cpxToJson) m)
 
 def flattenOp (j : Json) : Except String Json := do
   let names ← listOf (listOf strOfJson) (← field j "names")
@@ -47,7 +37,35 @@ def statsOp (j : Json) : Except String Json := do
   let xs ← listOf ratOfJson (← field j "xs")
   pure (Json.mkObj [("mean", ratToJson (mean xs)), ("pvar", ratToJson (pvar xs))])
 
+/-- the `np.sqrt` the driver runs `merge_results` with: the rational square root to 40 digits
+    (`⌊√(n·d·10⁸⁰)⌋ / (d·10⁴⁰)` for `x = n/d ≥ 0`); the theorems take `sqrt` as a parameter with
+    the exact contract, the harness checks that this one satisfies it to 1e-30. -/
+def ratSqrt (x : Rat) : Rat :=
+  if x ≤ 0 then 0 else
+    let S : Nat := 10 ^ 40
+    ((Nat.sqrt (x.num.toNat * x.den * S * S) : Nat) : Rat) / ((x.den * S : Nat) : Rat)
+
+def sqrtOp (j : Json) : Except String Json := do
+  pure (ratToJson (ratSqrt (← ratOfJson (← field j "x"))))
+
+def algResOfJson (j : Json) : Except String (AlgRes Rat (Cpx Rat)) := do
+  pure ⟨← listOf ratOfJson (← field j "Fn"), ← listOf ratOfJson (← field j "Xi"),
+        ← listOf (listOf cpxOfJson) (← field j "Phi")⟩
+
+/-- `{"names": [..], "setups": [setup][algorithm]{Fn, Xi, Phi}, "ref_ind": [[..]..]}` →
+    `[[name, {Phi, Fn, Fn_cov, Xi, Xi_cov}], ..]` in dictionary order (`Merge.mergeResultsQ`) -/
+def mergeResultsOp (j : Json) : Except String Json := do
+  let names ← listOf strOfJson (← field j "names")
+  let setups ← listOf (listOf algResOfJson) (← field j "setups")
+  let refInd ← listOf (listOf natOfJson) (← field j "ref_ind")
+  let out ← mergeResultsQ ratSqrt names setups refInd
+  pure (listToJson (fun (g : String × PoserRes Rat (Cpx Rat)) => Json.arr #[Json.str g.1, Json.mkObj [
+      ("Phi", listToJson (listToJson cpxToJson) g.2.Phi),
+      ("Fn", listToJson ratToJson g.2.Fn), ("Fn_cov", listToJson ratToJson g.2.Fn_cov),
+      ("Xi", listToJson ratToJson g.2.Xi), ("Xi_cov", listToJson ratToJson g.2.Xi_cov)]]) out)
+
 def ops : List (String × (Json → Except String Json)) :=
-  [("msf", msfOp), ("merge_mode_shapes", mergeOp), ("flatten_names_ms", flattenOp), ("poser_stats", statsOp)]
+  [("msf", msfOp), ("merge_mode_shapes", mergeOp), ("flatten_names_ms", flattenOp), ("poser_stats", statsOp),
+   ("poser_merge_results", mergeResultsOp), ("rat_sqrt", sqrtOp)]
 
 end PV.Ops.C02
